@@ -55,10 +55,11 @@ CFG = {
                   "before it activates); assumed: every correct member of the old committee learns its expiration "
                   "(fetch_schedule_interval) before it is asked to vote beyond it; queue_block does not check that a block's number "
                   "lies in the epoch it names (relies on the vote guard and <= f faulty members of the old committee).",
-    "harness": ["c01", "cepoch"],
-    "scope": {"cepoch": {"oracle_only": "^(verify:|vote:|qblock:|disagreement:)", "ignore_k": False}},
+    "harness": ["c01", "cepoch", "c05"],
+    "scope": {"cepoch": {"oracle_only": "^(verify:|vote:|qblock:|disagreement:)", "ignore_k": False},
+              "c05": {"oracle_only": "^(accepted_unverifiable_justification|equivocation:)", "ignore_k": True}},
     "replay_by_seed": True,
-    "n": {"quick": [6000, 3000], "thorough": [84000, 60000]},
+    "n": {"quick": [6000, 3000, 1200], "thorough": [84000, 60000, 12000]},
     "rule": "N/2000 simulations (at least 2) of 2000 scheduler steps each over committees of 4 (f=0), 6, 6 with a double weight, 7, 9 "
             "(mixed weights) or 11 validators with a random Byzantine subset of weight <= f; every third case uses a leader schedule "
             "other than round-robin over everybody (eligible subset, rotation period 1-3, weighted mode; the real view_leader is "
